@@ -103,7 +103,7 @@ func genBoolVals(r *rand.Rand, n int) []bool {
 
 func fixedBool() []jcase {
 	var cs []jcase
-	for _, n := range []int{0, 1, 2, 7, 8, 9, 15, 16, 17, 127, 128, 129, 1000} {
+	for _, n := range []int{0, 1, 2, 7, 8, 9, 15, 16, 17, 127, 128, 129, 300} {
 		for m := 0; m < 3; m++ {
 			v := make([]bool, n)
 			for i := range v {
